@@ -1,6 +1,8 @@
 /- model driver for C13: one operation per input line, one canonical line out -/
 import Batchie.Model.DriverLoop
+import Batchie.Model.ScreenIO
+import Batchie.Model.PrepIO
 
 open Batchie
 
-def main : IO Unit := DriverLoop.run []
+def main : IO Unit := DriverLoop.run [PrepIO.handle, ScreenIO.handle]
